@@ -130,6 +130,9 @@ func (cr *CheckRun) PrepareEmitted(bin string, ce CorpusEntry, expectGenError bo
 	if job.RF != nil {
 		job.PF = NewParamsFamily(em, job.RF)
 		job.PF.Install()
+		for _, sk := range job.PF.Skipped {
+			cr.Note("%s: %s", ce.Name, sk)
+		}
 	}
 	InstallAuthFamilies(em)
 	InstallResponderContracts(em)
@@ -477,6 +480,13 @@ func (cr *CheckRun) CheckTwins(entries []CorpusEntry, corpusDir string) {
 			cr.mu.Lock()
 			cr.Programs = append(cr.Programs, p.a.Name, p.b.Name)
 			cr.mu.Unlock()
+			if (a.load != nil && needsUserCode(a.load.Error())) || (b.load != nil && needsUserCode(b.load.Error())) {
+				// the fixture needs hand-written code next to the generated one: not a twin candidate
+				cr.mu.Lock()
+				cr.SkippedProgs = append(cr.SkippedProgs, p.a.Name+": needs user code, twin comparison skipped")
+				cr.mu.Unlock()
+				return
+			}
 			okGen := (a.gen == nil) == (b.gen == nil) && (a.load == nil) == (b.load == nil)
 			detail := ""
 			if !okGen {
